@@ -38,7 +38,7 @@ def meta(tier):
         'bounds': {
             'trees': {'ops<=2': 'atoms ' + str(ATOMS8), 'ops==3': 'atoms ' + str(ATOMS4 if q else ATOMS6),
                       'ops==4': None if q else 'atoms ' + str(ATOMS2)},
-            'binary_operators': R.BINOPS, 'unary': ['-', 'LSB', 'BYTE1'], 'byte_functions': 'BYTE0..BYTE3, LSB on a value grid',
+            'binary_operators': R.BINOPS, 'unary': ['-', 'LSB', 'BYTE1'], 'byte_functions': 'BYTE0..BYTE3, BYTE7..BYTE9, LSB on a value grid up to 2^80',
             'literal_values': LIT_VALUES, 'notations': R.NOTATIONS + ['chr'], 'chars': CHARS,
             'malformed_token_alphabet': MAL_TOKENS, 'malformed_max_len': 4 if q else 6,
         },
@@ -229,10 +229,10 @@ def shard(acc, tier, idx, n):
         for t in (a, ('b', '+', a, ('n', 1, 'dec')), ('b', '-', a, ('n', ord('A'), 'chr'))):
             judge_value(acc, t, 'literal')
     # ---- byte extraction on a value grid ---------------------------------------------------------
-    grid = [0, 1, 127, 128, 255, 256, 0x1234, 0xFFFF, 0x10000, 0x12345678, 2**32, 2**40 + 5, 2**63, 2**64 - 1]
+    grid = [0, 1, 127, 128, 255, 256, 0x1234, 0xFFFF, 0x10000, 0x12345678, 2**32, 2**40 + 5, 2**63, 2**64 - 1, 2**64, 2**70 + 0x1234, 0x12345 << 64]
     for v in grid:
         for neg in (False, True):
-            for fn in (-1, 0, 1, 2, 3):
+            for fn in (-1, 0, 1, 2, 3, 7, 8, 9):
                 ctr += 1
                 if ctr % n != idx:
                     continue
